@@ -375,11 +375,71 @@ Proof.
     + inversion H; subst. exists []; rewrite app_nil_r; reflexivity.
 Qed.
 
-Lemma private_flush_facts st st' r : private_flush st = (st', r) ->
-  (exists x, w_dest st' = w_dest st ++ x) /\ w_buf st' = [] /\ w_open st' = w_open st.
+(* write_all hands over a prefix [del] of the data: all of it when it succeeds, a proper prefix when it fails *)
+Lemma write_all_split : forall script data dest d s e, write_all script data dest = (d, s, e) ->
+  exists del rest, data = del ++ rest /\ d = dest ++ del /\ (e = None -> rest = []) /\ (e <> None -> rest <> []).
 Proof.
-  unfold private_flush. destruct (write_all _ _ _) as [[d s] e] eqn:E. intros H. inversion H; subst; cbn.
-  split; [eapply write_all_prefix, E|split; reflexivity].
+  induction script as [|w script IH]; intros data dest d s e H.
+  - unfold write_all in H. destruct data; inversion H; subst.
+    + exists [], []. split; [reflexivity|]. split; [rewrite app_nil_r; reflexivity|]. split; [reflexivity|intros C; contradiction].
+    + eexists; exists []. split; [rewrite app_nil_r; reflexivity|]. split; [reflexivity|]. split; [reflexivity|intros C; contradiction].
+  - destruct data as [|b data].
+    { cbn in H. inversion H; subst. exists [], []. split; [reflexivity|]. split; [rewrite app_nil_r; reflexivity|].
+      split; [reflexivity|intros C; contradiction]. }
+    cbn [write_all] in H. destruct w as [n| | |c].
+    + destruct n as [|n].
+      * inversion H; subst. exists [], (b :: data). split; [reflexivity|]. split; [rewrite app_nil_r; reflexivity|].
+        split; [discriminate|intros _; discriminate].
+      * apply IH in H. destruct H as [del [rest [E1 [E2 [E3 E4]]]]].
+        exists (firstn (S n) (b :: data) ++ del), rest.
+        split; [rewrite <- app_assoc, <- E1, firstn_skipn; reflexivity|].
+        split; [rewrite E2, <- app_assoc; reflexivity|]. split; assumption.
+    + apply IH in H. exact H.
+    + inversion H; subst. exists [], (b :: data). split; [reflexivity|]. split; [rewrite app_nil_r; reflexivity|].
+      split; [discriminate|intros _; discriminate].
+    + inversion H; subst. exists [], (b :: data). split; [reflexivity|]. split; [rewrite app_nil_r; reflexivity|].
+      split; [discriminate|intros _; discriminate].
+Qed.
+
+(* the hand-over step: the working buffer splits into what the destination took ([del], appended to it) and the rest, which stays
+   buffered; the rest is empty exactly when the step succeeds; a failure is an I/O error (fix D28) *)
+Lemma private_flush_split st st' r : private_flush st = (st', r) ->
+  w_open st' = w_open st /\
+  exists del rest, w_buf st = del ++ rest /\ w_dest st' = w_dest st ++ del /\ w_buf st' = rest /\
+                   (r = WOk -> rest = []) /\ (r <> WOk -> rest <> [] /\ exists x, r = WErr (EIo x)).
+Proof.
+  unfold private_flush. destruct (write_all _ _ _) as [[d s] e] eqn:E. intros H. inversion H; subst; cbn. clear H.
+  split; [reflexivity|].
+  destruct (write_all_split _ _ _ _ _ _ E) as [del [rest [E1 [E2 [E3 E4]]]]].
+  exists del, rest. split; [exact E1|]. split; [exact E2|].
+  split. { rewrite E2, E1, app_length, Nat.add_comm, Nat.add_sub, skipn_app, skipn_all, Nat.sub_diag. reflexivity. }
+  destruct e as [x|].
+  - split; [discriminate|]. intros _. split; [apply E4; discriminate|exists x; reflexivity].
+  - split; [intros _; apply E3; reflexivity|]. intros C. contradiction.
+Qed.
+
+(* conservation: whatever the destination does, the hand-over step neither drops nor duplicates a byte *)
+Lemma private_flush_conserves st st' r : private_flush st = (st', r) -> w_dest st' ++ w_buf st' = w_dest st ++ w_buf st.
+Proof.
+  intros H. destruct (private_flush_split _ _ _ H) as [_ [del [rest [E1 [E2 [E3 _]]]]]].
+  rewrite E2, E3, E1, app_assoc. reflexivity.
+Qed.
+
+(* a destination that accepts everything: the whole buffer goes over *)
+Lemma private_flush_acc st : w_script st = [] ->
+  private_flush st = ({| w_open := w_open st; w_buf := []; w_dest := w_dest st ++ w_buf st; w_script := [] |}, WOk).
+Proof.
+  intros Hs. unfold private_flush. rewrite Hs.
+  assert (E : write_all [] (w_buf st) (w_dest st) = (w_dest st ++ w_buf st, [], None)).
+  { destruct (w_buf st); cbn [write_all]; [rewrite app_nil_r|]; reflexivity. }
+  rewrite E. rewrite app_length, Nat.add_comm, Nat.add_sub, skipn_all. reflexivity.
+Qed.
+
+Lemma private_flush_facts st st' r : private_flush st = (st', r) ->
+  (exists x, w_dest st' = w_dest st ++ x) /\ (r = WOk -> w_buf st' = []) /\ w_open st' = w_open st.
+Proof.
+  intros H. destruct (private_flush_split _ _ _ H) as [Ho [del [rest [E1 [E2 [E3 [E4 _]]]]]]].
+  split; [exists del; exact E2|]. split; [intros Hr; rewrite E3; apply E4, Hr|exact Ho].
 Qed.
 
 Lemma end_tag_dest st id st1 r : end_tag st id = (st1, r) -> w_dest st1 = w_dest st /\ w_script st1 = w_script st.
@@ -449,7 +509,7 @@ Qed.
 (* ---- wstep level *)
 Lemma flush_if_streaming_facts st st' r : flush_if_streaming st = (st', r) ->
   (exists x, w_dest st' = w_dest st ++ x) /\ w_open st' = w_open st /\
-  (has_known (w_open st) = true -> st' = st) /\ (has_known (w_open st) = false -> w_buf st' = []).
+  (has_known (w_open st) = true -> st' = st) /\ (has_known (w_open st) = false -> r = WOk -> w_buf st' = []).
 Proof.
   unfold flush_if_streaming. destruct (has_known (w_open st)) eqn:E; intros H.
   - inversion H; subst. split; [exists []; rewrite app_nil_r; reflexivity|]. split; [reflexivity|]. split; [reflexivity|discriminate].
@@ -522,13 +582,13 @@ Theorem wstep_drained sp st op st' : wstep sp st op = (st', WOk) -> has_known (w
 Proof.
   destruct op as [t o|t|id data| |]; cbn [wstep]; intros H Hk.
   1,2: unfold write_advanced in H; destruct (buffer_tag sp t _ st) as [st1 r1]; destruct r1; try (inversion H; fail);
-       destruct (flush_if_streaming_facts _ _ _ H) as [_ [Ho [_ Hb]]]; apply Hb; rewrite <- Ho; exact Hk.
+       destruct (flush_if_streaming_facts _ _ _ H) as [_ [Ho [_ Hb]]]; apply Hb; [rewrite <- Ho; exact Hk|reflexivity].
   - unfold write_raw in H. destruct (write_payload _ _ _ _ _) as [st1 r1]. destruct r1; try (inversion H; fail).
-    destruct (flush_if_streaming_facts _ _ _ H) as [_ [Ho [_ Hb]]]. apply Hb. rewrite <- Ho. exact Hk.
+    destruct (flush_if_streaming_facts _ _ _ H) as [_ [Ho [_ Hb]]]. apply Hb; [rewrite <- Ho; exact Hk|reflexivity].
   - unfold flush in H. destruct (end_all _ _) as [st1 r1]. destruct r1; try (inversion H; fail).
-    destruct (private_flush_facts _ _ _ H) as [_ [Hb _]]. exact Hb.
+    destruct (private_flush_facts _ _ _ H) as [_ [Hb _]]. exact (Hb eq_refl).
   - unfold flush in H. destruct (end_all _ _) as [st1 r1]. destruct r1; try (inversion H; fail).
-    destruct (private_flush_facts _ _ _ H) as [_ [Hb _]]. exact Hb.
+    destruct (private_flush_facts _ _ _ H) as [_ [Hb _]]. exact (Hb eq_refl).
 Qed.
 
 (* while a known-size master is (still) open after a write call, that call handed nothing over *)
@@ -549,7 +609,7 @@ Theorem flush_closes_all st st' : flush st = (st', WOk) -> w_open st' = [] /\ w_
 Proof.
   unfold flush. intros H. destruct (end_all _ _) as [st1 r1] eqn:Ee. destruct r1; try (inversion H; fail).
   apply end_all_closes in Ee; [|lia]. destruct (private_flush_facts _ _ _ H) as [_ [Hb Ho]].
-  split; [rewrite Ho; exact Ee|exact Hb].
+  split; [rewrite Ho; exact Ee|exact (Hb eq_refl)].
 Qed.
 
 (* ------------------------------------------------------------------ C11, writer side *)
